@@ -217,6 +217,15 @@ class SmtpRelayClient(RelayPoolClient):
 
     def _handle_encoding(self, envelope):
         assert self.client is not None
+        if 'SMTPUTF8' not in self.client.extensions:
+            try:
+                for address in [envelope.sender] + envelope.recipients:
+                    address.encode('ascii')
+            except UnicodeError:
+                reply = Reply('553', '5.6.7 Address requires SMTPUTF8',
+                              command=b'[address conversion]',
+                              address=self.address)
+                raise SmtpRelayError.factory(reply)
         if '8BITMIME' not in self.client.extensions:
             try:
                 envelope.encode_7bit(self.binary_encoder)
